@@ -15,6 +15,7 @@ import (
 	"reflect"
 	"sort"
 	"sync"
+	"sync/atomic"
 
 	corev1 "k8s.io/api/core/v1"
 	metav1 "k8s.io/apimachinery/pkg/apis/meta/v1"
@@ -178,6 +179,10 @@ type worker struct {
 	fns []*xrk.FnServer
 	mu  sync.Mutex
 	cur *tcase
+	// copyObserved makes the last step also publish, as XR connection details, the connection
+	// details of every observed composed resource (what function-patch-and-transform's
+	// FromConnectionSecretKey does)
+	copyObserved atomic.Bool
 }
 
 func newWorker(c *kit.Ctx, id int) *worker {
@@ -203,6 +208,13 @@ func newWorker(c *kit.Ctx, id int) *worker {
 			cd := map[string][]byte{}
 			for k, v := range src {
 				cd[k] = []byte(v)
+			}
+			if step == 1 && w.copyObserved.Load() {
+				for rn, or := range req.GetObserved().GetResources() {
+					for k, v := range or.GetConnectionDetails() {
+						cd["from-"+rn+"-"+k] = v
+					}
+				}
 			}
 			d.Composite = &fnv1.Resource{ConnectionDetails: cd, Ready: fnv1.Ready_READY_TRUE}
 			if step == 0 {
@@ -477,6 +489,123 @@ func (w *worker) run(i int, name string) {
 	}
 }
 
+// runProvenance: "only values produced by the composition for this XR". The composition derives
+// XR connection details from the connection secrets of its composed resources. A composed
+// resource the XR references is then taken over by another owner (re-parented in place, or
+// deleted and re-created under the same name behind the XR controller's lagging cache) and
+// points at that owner's connection secret. Whatever the XR controller does next, the other
+// owner's secret values never show up in the XR's (or the claim's) connection secret.
+func (w *worker) runProvenance(i int, name string) {
+	c := w.c
+	mode := []string{"pipeline", "pt"}[i%2]
+	variant := []string{"reparented-in-place", "recreated-by-foreign-behind-cache"}[(i/2)%2]
+	const theirs = "their-secret-value"
+	t := tcase{Mode: mode, Wants: true, ClaimWant: true, Details: map[string]string{"own": "produced-by-composition"}, FirstStep: map[string]string{},
+		Extracts: map[string][]extract{"a": {{Name: "ka", Type: "key"}}, "b": {{Name: "kb", Type: "value"}}}}
+	w.mu.Lock()
+	w.cur = &t
+	w.mu.Unlock()
+	w.copyObserved.Store(true)
+	defer w.copyObserved.Store(false)
+	ctx := context.Background()
+	world := sim.NewWorld(xrk.Scheme(), uint64(c.Seed)*157+uint64(i))
+	xrd := xrk.XRDObject(xrk.XRDOpts{Group: "ex.org", Kind: "XThing", Plural: "xthings", ClaimKind: "Thing", ClaimPlural: "things"})
+	world.MustSeed("user", xrd)
+	if mode == "pipeline" {
+		var names []string
+		for k := 0; k < 2; k++ {
+			n := fmt.Sprintf("fn-%d", k)
+			names = append(names, n)
+			for _, o := range xrk.FunctionObjects(n, w.fns[k].Addr) {
+				world.MustSeedFull("pkg", o)
+			}
+		}
+		world.MustSeed("user", xrk.PipelineComposition("comp", "ex.org/v1", "XThing", names, nil))
+	} else {
+		world.MustSeed("user", xrk.ResourcesComposition("comp", "ex.org/v1", "XThing", ptTemplates(&t)))
+	}
+	if err := xrk.ReconcileComposition(world, "comp"); err != nil {
+		panic(err)
+	}
+	user, other := world.Client("user"), world.Client("someone-else")
+	for _, tn := range []string{"a", "b"} {
+		_ = user.Create(ctx, mkSecret(xrSecretNS, "cd-"+tn+"-conn", connType, map[string]string{"k": "secret-of-" + tn}, nil))
+	}
+	_ = other.Create(ctx, mkSecret(xrSecretNS, "their-conn", connType, map[string]string{"k": theirs, "password": theirs}, nil))
+	world.MustSeed("user", xrk.XRObject("ex.org/v1", "XThing", "static-xr", "comp", map[string]any{
+		"claimRef":                   map[string]any{"apiVersion": "ex.org/v1", "kind": "Thing", "namespace": "ns1", "name": "c1"},
+		"writeConnectionSecretToRef": map[string]any{"name": "xr-secret", "namespace": xrSecretNS}}))
+	world.MustSeed("user", xrk.ClaimObject("ex.org/v1", "Thing", "ns1", "c1", map[string]any{"resourceRef": map[string]any{"apiVersion": "ex.org/v1", "kind": "XThing", "name": "static-xr"},
+		"compositionRef": map[string]any{"name": "comp"}, "writeConnectionSecretToRef": map[string]any{"name": "claim-secret"}}))
+	lag := int64(0)
+	cached := world.LaggingClient("xr", func(gk schema.GroupKind) (int64, bool) {
+		if lag > 0 && gk.Group == "nop.ex.org" {
+			return lag, true
+		}
+		return 0, false
+	})
+	ce := xrk.NewClaimEnv(world, "xthings.ex.org", i%8 >= 4)
+	xe := xrk.NewXREnvSplit(world, ce.XRD, cached, world.Client("xr"))
+	defer xe.CloseConns()
+	_, _, _ = ce.Reconcile("ns1", "c1")
+	for k := 0; k < 3; k++ {
+		_, _, _ = xe.Reconcile("static-xr")
+	}
+	published := len(secretData(world.GetObj(xrSecretKey))) > 0
+	// someone else takes over composed resource "a"
+	foreign := []any{map[string]any{"apiVersion": "v1", "kind": "ConfigMap", "name": "someone", "uid": "foreign-uid", "controller": true}}
+	took := false
+	for _, o := range world.ListObjs(schema.GroupKind{Group: "nop.ex.org", Kind: "NopA"}) {
+		if sim.Str(o, "spec", "forProvider", "v") != "val-a" {
+			continue
+		}
+		u := &unstructured.Unstructured{Object: o}
+		took = true
+		if variant == "recreated-by-foreign-behind-cache" {
+			_ = user.Delete(ctx, u)
+			n := &unstructured.Unstructured{Object: map[string]any{"apiVersion": "nop.ex.org/v1", "kind": "NopA",
+				"metadata": map[string]any{"name": u.GetName(), "annotations": map[string]any{"crossplane.io/composition-resource-name": "a"}, "ownerReferences": foreign},
+				"spec": map[string]any{"forProvider": map[string]any{"v": "theirs"}, "writeConnectionSecretToRef": map[string]any{"name": "their-conn", "namespace": xrSecretNS}}}}
+			if err := other.Create(ctx, n); err != nil {
+				panic(err)
+			}
+			lag = 1
+			continue
+		}
+		_ = unstructured.SetNestedSlice(u.Object, foreign, "metadata", "ownerReferences")
+		_ = unstructured.SetNestedMap(u.Object, map[string]any{"name": "their-conn", "namespace": xrSecretNS}, "spec", "writeConnectionSecretToRef")
+		if err := other.Update(ctx, u); err != nil {
+			panic(err)
+		}
+	}
+	from := world.LogLen()
+	for k := 0; k < 3; k++ {
+		_, _, _ = xe.Reconcile("static-xr")
+		_, _, _ = ce.Reconcile("ns1", "c1")
+		for _, sk := range []sim.Key{xrSecretKey, clSecretKey} {
+			for key, v := range secretData(world.GetObj(sk)) {
+				if v == theirs {
+					var evs []string
+					for _, e := range world.Log(from) {
+						if (e.Key.Kind == "Secret" && e.IsWrite()) || e.Key.Group == "nop.ex.org" {
+							evs = append(evs, e.Short())
+						}
+					}
+					c.Violate("secret-holds-details-of-resource-controlled-by-another-owner:"+mode+":"+variant, name,
+						fmt.Sprintf("after reconcile %d secret %s holds key %q with a value that comes from the connection secret of a resource another owner controls", k+1, sk, key),
+						map[string]any{"mode": mode, "variant": variant, "xr_secret": secretData(world.GetObj(xrSecretKey)), "claim_secret": secretData(world.GetObj(clSecretKey)), "trace": evs})
+					break
+				}
+			}
+		}
+	}
+	c.Eval(fmt.Sprintf("provenance|%s|%s|%d", mode, variant, i), took && published)
+	c.Count("provenance_cases", 1)
+	if took && published {
+		c.Count("provenance_takeovers_after_publication", 1)
+	}
+}
+
 func keysOf(m map[string]string) []string {
 	var out []string
 	for k := range m {
@@ -518,5 +647,15 @@ func main() {
 	}
 	close(ch)
 	wg.Wait()
+	pw := newWorker(c, 8)
+	for i := 0; i < c.N(16, 160); i++ {
+		name := fmt.Sprintf("provenance/%d", i)
+		if !c.Want(name) {
+			continue
+		}
+		if err := kit.Try(func() { pw.runProvenance(i, name) }); err != nil {
+			c.Violate("panic", name, err.Error(), nil)
+		}
+	}
 	c.Finish()
 }
